@@ -175,6 +175,9 @@ pub fn final_states(w: &World) -> Vec<u128> {
 
 /// If daemon `d` died or hung, a violation text; otherwise None.
 pub fn daemon_fault(w: &World, d: usize) -> Option<String> {
+    if let Some(s) = &w.storm {
+        return Some(s.clone());
+    }
     match &w.ds[d].state {
         StepOut::Parked => None,
         StepOut::Exited { panicked: true } => Some(format!(
